@@ -951,6 +951,10 @@ caption_command(vbi_decoder *vbi, struct caption *cc,
 			}
 
 			set_cursor(ch, 1, ch->row1 + ch->roll - 1);
+		} else if (ch->mode == MODE_TEXT) {
+			/* 47 CFR 15.119 (e)(1), EIA 608-B Section 7.4:
+			   Text mode does not use the row address. */
+			set_cursor(ch, 1, ch->row);
 		} else
 			set_cursor(ch, 1, row);
 
